@@ -124,6 +124,35 @@ def deep_mesh(nlev=11, ndims=2, corner='lower'):
     return Mesh('%dd-%dlev-deep' % (ndims, nlev), ndims, (2,) * ndims, [[(lo, hi)] for _ in range(nlev)])
 
 
+def grid_mesh(counts, cell=1, fine=None, name=None):
+    """Many small boxes: level 0 is a regular grid of prod(counts) boxes of `cell` cells per axis (x fastest).  `fine`: number
+    of level-1 boxes; fine box k is the 2^nd fine cells over coarse cell k (x fastest over the coarse domain), so every fine
+    box covers exactly one coarse cell.  The structures whose SIZE (box count, box number, offsets) is the point: batch and
+    chunk boundaries, sort stability, narrow integer types."""
+    nd = len(counts)
+    ncell0 = tuple(c * cell for c in counts)
+    lv0 = tile((0,) * nd, tuple(n - 1 for n in ncell0), [[k * cell for k in range(1, counts[d])] for d in range(nd)])
+    boxes = [lv0]
+    if fine:
+        cells = tile((0,) * nd, tuple(n - 1 for n in ncell0), [list(range(1, ncell0[d])) for d in range(nd)])
+        assert fine <= len(cells)
+        boxes.append([refine_region(lo, hi) for lo, hi in cells[:fine]])
+    return Mesh(name or '%dd-grid-%s%s' % (nd, 'x'.join(map(str, counts)), '+%dfine' % fine if fine else ''), nd, ncell0, boxes)
+
+
+def dealt_layout(nboxes, nfiles, stride=1):
+    """Boxes dealt round-robin over `nfiles` files; inside a file the on-disk order is the box order rotated by `stride`."""
+    per = {}
+    for b in range(nboxes):
+        per.setdefault(b % nfiles, []).append(b)
+    lay = [None] * nboxes
+    for f, members in per.items():
+        order = members[stride % len(members):] + members[:stride % len(members)]
+        for rank, b in enumerate(order):
+            lay[b] = (f, rank)
+    return lay
+
+
 def curated_meshes():
     M = []
     # ---- 3D
